@@ -73,6 +73,12 @@ def scenario(ctx, seed, goal, phase, party, lose, record_controls=None):
             for _ in range(goal - 1 if goal > 1 else 0):
                 if w.net.inflight:
                     w.deliver(w.net.inflight[0].seq)        # data is in the middle of the path
+        if phase == "half" and party in ("relay", "exit"):
+            # a joined node that tears down while the originator's next extend is still in flight would simply be
+            # re-joined by that extend (its exit entry lives on for remove_tunnel_delay): the torn-down case is the one
+            # where that extend does not arrive
+            for d in list(w.net.inflight):
+                w.lose(d.seq)
         torn[0] = True
         t_down = w.now_ms()
         if party == "o-destroy":
@@ -138,9 +144,8 @@ def run(tier, seed, replay=None):
     ctx.assumptions += ["bounds derive from the default settings actually in force (20 s inactivity, 5 s sweep, 5 s delay, 6 x 10 s "
                         "retry budget); max_time (1 h) is the last resort the statement allows and is not reached",
                         "a vanished originator's own tables are not required to empty (it is gone)"]
-    K.spec_controls(ctx, [("Onion_c09_noreclaim.cfg", "Reclaimed",
-                           "spec whose sweep skips relay entries violates Reclaimed")])
-    K.model_check(ctx, ["Onion_c09.cfg", "Onion_c09_join.cfg"])
+    bg = K.Background(["Onion_c09_q.cfg", "Onion_c09_join.cfg"] + (["Onion_c09.cfg"] if tier == "thorough" else []),
+                      [("Onion_c09_noreclaim.cfg", "Reclaimed", "spec whose sweep skips relay entries violates Reclaimed")])
     import random
     rng = random.Random(seed)
     runs, hdr = [], None
@@ -177,6 +182,7 @@ def run(tier, seed, replay=None):
                     260 if tier == "quick" else 600, NONTRIVIAL)
     K.random_family(ctx, PID, "two_origins", "lossy", range(base, base + (2 if tier == "quick" else 8)), 260, NONTRIVIAL,
                     settings={"max_joined_circuits": 2, "max_relay_early": 3}, max_joined=2, max_early=3)
+    bg.collect(ctx)
     return ctx.finish()
 
 
